@@ -116,6 +116,13 @@ func (h *Handler) Handle(req, resp dhcpv6.DHCPv6) (dhcpv6.DHCPv6, bool) {
 		return nil, true
 	}
 
+	// A possible simple optimization here would be to be able to lock single map values
+	// individually instead of the whole map, since we lock for some amount of time.
+	// The lock is held for the whole message, so that concurrent messages of the same
+	// client never see the leases of a half-handled one
+	h.Lock()
+	defer h.Unlock()
+
 	// Each request IA_PD requires an IA_PD response
 	for _, iapd := range msg.Options.IAPD() {
 		if err != nil {
@@ -140,9 +147,6 @@ func (h *Handler) Handle(req, resp dhcpv6.DHCPv6) (dhcpv6.DHCPv6, bool) {
 		// Bitmap to track which requests are already satisfied or not
 		satisfied := bitset.New(uint(len(hints)))
 
-		// A possible simple optimization here would be to be able to lock single map values
-		// individually instead of the whole map, since we lock for some amount of time
-		h.Lock()
 		knownLeases := h.Records[recordKey(client)]
 		// Bitmap to track which leases are already given in this exchange
 		givenOut := bitset.New(uint(len(knownLeases)))
@@ -242,7 +246,6 @@ func (h *Handler) Handle(req, resp dhcpv6.DHCPv6) (dhcpv6.DHCPv6, bool) {
 		if newLeases != nil {
 			h.Records[recordKey(client)] = newLeases
 		}
-		h.Unlock()
 
 		if len(iapdResp.Options.Options) == 0 {
 			log.Debugf("No valid prefix to return for IAID %x", iapd.IaId)
